@@ -13,7 +13,7 @@ def run(tier):
     violations = []
     broken = list(po["broken"])
     c = Counter()
-    n = 16 if tier == "quick" else 120
+    n = 16 if tier == "quick" else 60
     blocks = gen.blocks(sd * 29 + 12, n, profiles=("mixed", "mem", "arith")) + rng.sample(gen.mem_pair_corpus(), 6 if tier == "quick" else 40) + rng.sample(gen.rule_corpus(), 6 if tier == "quick" else 40)
     cse = gen.cse_corpus()
     blocks += rng.sample(cse, 10 if tier == "quick" else len(cse))
